@@ -500,6 +500,10 @@ Record scfg := mkSCfg {
   sc_drain : bool              (* the done channel is drained on every poll (C05 repair) *)
 }.
 
+Definition mk_scfg (G : fngraph) (rev : bool) (st : strat) (intr drain : bool) : scfg :=
+  mkSCfg (fg_n G) (if rev then fg_struct_rev G else fg_struct G)
+         (if rev then fg_outgoing G else fg_incoming G) st intr drain.
+
 Definition scfg_cfg (sc : scfg) : cfg :=
   mkCfg (sc_n sc) (sc_es sc) (sc_counts sc) AForEach false false 0 (sc_strat sc) true [] true.
 
